@@ -121,18 +121,28 @@ PairClauses(p) ==
     [] OTHER -> <<>>
 IsPair == PROP \in {"C15", "C16", "C17", "C18", "C19", "C20"}
 
+\* Extents that lie outside the text are the business of C01-C03 (like panics and budget overruns are C01's): the
+\* clauses of the other properties slice the text by token extents and are not defined on such a record.
+PositionsSane(r) ==
+  /\ \A i \in 1..Len(r.toks) : LET t == r.toks[i] IN
+        /\ t.c \in 0..Len(r.cs) /\ t.ec \in 0..Len(r.cs) /\ t.c <= t.ec
+  /\ \A i \in 1..Len(r.errs) : r.errs[i].c \in 0..Len(r.cs)
+  /\ \A i \in 1..Len(r.events) : r.events[i].ca \in 0..Len(r.cs)
+                                  /\ \A j \in 1..Len(r.events[i].tt) : r.events[i].tt[j].c \in 0..Len(r.cs)
 EmitVerdict(id, cl) ==
   cl[2] = {} \/ PrintT(<<"VERDICT", id, cl[1], Cardinality(cl[2]), CHOOSE x \in cl[2] : TRUE>>)
 
 ReportPair(p) ==
   IF ~(CertOK(p.a) /\ (PROP = "C20" \/ CertOK(p.b)) /\ (PROP = "C15" => CertOK(p.ab))) THEN PrintT(<<"CERTFAIL", p.id>>)
   ELSE IF PROP \in {"C16", "C17", "C18"} /\ ~Ok2(p) THEN PrintT(<<"SKIPPED", p.id>>)
+  ELSE IF PROP \in {"C15", "C16", "C17", "C18"} /\ ~(PositionsSane(p.a) /\ PositionsSane(p.b)) THEN PrintT(<<"SKIPPED", p.id>>)
   ELSE LET cls == PairClauses(p) IN \A i \in 1..Len(cls) : EmitVerdict(p.id, cls[i])
 
 Report(r) ==
   IF IsPair THEN ReportPair(r)
   ELSE IF ~CertOK(r) THEN PrintT(<<"CERTFAIL", r.id>>)
   ELSE IF PROP # "C01" /\ (~r.ok \/ r.budget_exceeded) THEN PrintT(<<"SKIPPED", r.id>>)
+  ELSE IF PROP \notin {"C01", "C02", "C03", "C04", "C05"} /\ ~PositionsSane(r) THEN PrintT(<<"SKIPPED", r.id>>)
   ELSE LET cls == Clauses(r) IN \A i \in 1..Len(cls) : EmitVerdict(r.id, cls[i])
 
 \* always TRUE; evaluated once per distinct state, i.e. once per record
